@@ -322,3 +322,13 @@ func checkLiquidSpend(c *Chain, tx *ChainTx, idx int, prev *ChainTx, out ChainOu
 	}
 	return nil
 }
+
+// OwnLocked is Own for online monitors (world lock already held).
+func (l *LiquidWallet) OwnLocked(script []byte) *LiquidAddr {
+	for _, a := range l.Addrs {
+		if bytes.Equal(a.Script, script) {
+			return a
+		}
+	}
+	return nil
+}
